@@ -857,7 +857,7 @@ class Interp:
     def s_Delete(self, s, fr):
         for t in s.targets:
             if isinstance(t, ast.Attribute):
-                self.delattr(self.eval(t.value, fr), t.attr)
+                self.delattr(self.eval(t.value, fr), self.mangle(t.attr, fr))
             elif isinstance(t, ast.Name):
                 fr.locals.pop(t.id, None)
             elif isinstance(t, ast.Subscript):
@@ -874,7 +874,7 @@ class Interp:
         if isinstance(t, ast.Name):
             self.store_name(t.id, v, fr)
         elif isinstance(t, ast.Attribute):
-            self.setattr(self.eval(t.value, fr), t.attr, v)
+            self.setattr(self.eval(t.value, fr), self.mangle(t.attr, fr), v)
         elif isinstance(t, (ast.Tuple, ast.List)) and any(isinstance(e, ast.Starred) for e in t.elts):
             # a, *rest, z = concrete sequence   (C17: `obj_arg_name, *_ = _get_fn_argnames(wrapped)`)
             (si,) = [i for i, e in enumerate(t.elts) if isinstance(e, ast.Starred)]
@@ -1308,8 +1308,16 @@ class Interp:
     def e_Name(self, e, fr):
         return self.lookup(e.id, fr)
 
+    @staticmethod
+    def mangle(attr, fr):
+        """private name mangling (language reference 6.2.1): `__name` inside a class body is compiled as `_Class__name`"""
+        cls = getattr(fr.func, "cls", None)
+        if cls is not None and attr.startswith("__") and not attr.endswith("__"):
+            return "_" + cls.__name__.lstrip("_") + attr
+        return attr
+
     def e_Attribute(self, e, fr):
-        return self.getattr(self.eval(e.value, fr), e.attr)
+        return self.getattr(self.eval(e.value, fr), self.mangle(e.attr, fr))
 
     def e_Tuple(self, e, fr):
         return tuple(self.eval_elts(e.elts, fr))
